@@ -15,6 +15,7 @@ open Construct
 open EasyList
 open UserField
 open Package
+open ParseSites
 
 type sx = A of string | L of sx list
 
@@ -260,6 +261,9 @@ let dispatch (f : string) (args : sx list) : sx =
       A (match Package.classify m (str_of_sx p) with
          | IsPicture -> "picture" | IsThumbnail -> "thumbnail" | IsRootPart -> "rootpart" | IsRootEntry -> "rootentry"
          | IsObject -> "object" | IsObjectPart -> "objectpart" | IsExtra -> "extra")
+  | "pkg_load_reads", [L man] ->
+      let m = SL.map (function L [a; b] -> (str_of_sx a, str_of_sx b) | _ -> failwith "man") man in
+      L (SL.map sx_of_str (ParseSites.load_reads m))
   | _ -> failwith ("unknown function " ^ f)
 
 let () =
